@@ -16,7 +16,7 @@
    marker sizes are reduced fractions (num, den); colours and marker shapes are indices into
    the harness palettes (opaque tokens here, index 0 = the default "tab:blue" / "o"). *)
 From Coq Require Import ZArith List Bool.
-From Mesa Require Import Common.ListX.
+From Mesa Require Import Common.ListX Generated.Tables.
 Import ListNotations.
 Open Scope Z_scope.
 
@@ -88,10 +88,11 @@ Definition addr_coord (sp : space) (x y : Z) : coord :=
 
 (* --- per-family transformation of the loc column before _scatter --- *)
 (* draw_hex_grid:  loc[:,0] = loc[:,0]*x_spacing + ((loc[:,1]-1) % 2)*(x_spacing/2);  loc[:,1] *= y_spacing *)
-Definition hex_center (p : coord) : coord := (2 * fst p + (snd p - 1) mod 2, 3 * snd p).
+Definition hex_center (p : coord) : coord :=
+  (2 * fst p + (snd p - gen_viz_hex_row_offset) mod 2, 3 * snd p).   (* K re-read from the source (T1) *)
 (* _get_hexmesh:  x = col*x_spacing + (row % 2 == 0)*(x_spacing/2);  y = row*y_spacing *)
 Definition mesh_center (col row : Z) : coord :=
-  (2 * col + (if row mod 2 =? 0 then 1 else 0), 3 * row).
+  (2 * col + (if row mod 2 =? gen_viz_mesh_shift_parity then 1 else 0), 3 * row).
 
 Definition draw_loc (sp : space) (p : coord) : coord :=
   match sp_family sp with
@@ -114,7 +115,8 @@ Definition extent (sp : space) : Z :=
 
 Definition reduce (q : Z * Z) : Z * Z :=
   let g := Z.gcd (fst q) (snd q) in if g =? 0 then q else (fst q / g, snd q / g).
-Definition dflt_size (sp : space) : Z * Z := reduce (32400, extent sp * extent sp).
+Definition dflt_size (sp : space) : Z * Z :=
+  reduce (gen_viz_size_base * gen_viz_size_base, extent sp * extent sp).   (* 180: re-read from the source (T1) *)
 
 (* ------------------------------------------------------------------ agents and portrayal *)
 Record agent := { a_id : Z; a_kind : Z; a_pos : option coord; a_cell : option coord }.
@@ -129,9 +131,10 @@ Fixpoint portray (pt : portrayal) (k : Z) : pdict :=
   | (k', d) :: t => if k =? k' then d else portray t k
   end.
 
-Definition DEF_COLOR : Z := 0.
-Definition DEF_MARKER : Z := 0.
-Definition DEF_ZORDER : Z := 1.
+(* defaults of collect_agent_data(color=, marker=, zorder=), re-read from the source (T1) *)
+Definition DEF_COLOR : Z := gen_viz_default_color.
+Definition DEF_MARKER : Z := gen_viz_default_marker.
+Definition DEF_ZORDER : Z := gen_viz_default_zorder.
 Definition get {A : Type} (o : option A) (d : A) : A := match o with Some x => x | None => d end.
 
 (* loc = agent.pos;  if loc is None: loc = agent.cell.coordinate   (None: AttributeError) *)
